@@ -103,6 +103,35 @@ def run(ctx, rep):
         crate = ctx.crate(cfg)
         check_trim(crate, rep, cfg)
         check_text(crate, rep, cfg)
+        check_raw_token(crate, rep, cfg)
+
+
+def check_raw_token(crate, rep, cfg):
+    """C08.TEXT — every recognised raw block yields its RawContent token (even an empty one): the whitespace filter relies on that token to
+    absorb a pending `-%}` trim and as the look-ahead target of the text before it. From the point where `endraw` has been matched, the
+    tokenizer can only return — the RawContent token or an error — never go round its main loop without producing it."""
+    from props.c02 import const_of
+    import rrec
+    b = crate.one("parsing::lexer::basic_tokenize::{closure#0}")
+    rep.analysed(b)
+    ends = [bb for bb, t in b.calls() if callee_def(t).endswith("lexer::skip_tag") and any((const_of(b, a) or {}).get("s") == "endraw" for a in t["args"])]
+    raws = {bb for bb, idx, st in find_aggs(b, "parsing::lexer::Token", "RawContent")}
+    ok = len(ends) == 1 and bool(raws)
+    why = "anchors: skip_tag(.., \"endraw\", ..) call / RawContent construction (found %d / %d)" % (len(ends), len(raws))
+    if ok:
+        heads = [h for h, L in b.natural_loops().items() if ends[0] in L]
+        se = rrec.ok_edges_of_call(b, crate, ends[0])
+        ok = bool(se)
+        why = "Some edge of the endraw match not found"
+        for sb, tgt in se:
+            reach = b.reach_from(tgt, removed_blocks=frozenset(raws))
+            # going back to the head of a loop that encloses the match (the main token loop / the scan for endraw) without having built the token
+            back = [h for h in heads if h in reach]
+            if back:
+                ok = False
+                why = "after `endraw` was matched the tokenizer can continue its loop (head at %s) without emitting the RawContent token" % b.where(back[0])
+    rep.add("C08.TEXT", "C08.TEXT:raw-block-always-a-token", ok, b.where(ends[0]) if ends else b.where(0), "once `{% endraw %}` is matched, every path returns (the RawContent token or an "
+            "error): an empty raw block still stands between its neighbours for whitespace control" + ("" if ok else " — VIOLATED: " + why))
 
 
 def check_trim(crate, rep, cfg):
